@@ -32,6 +32,10 @@ def build_cases(tier, seed):
         cs.append(("weak", "int", c))
     for c in common.score_profiles(tier):
         cs.append(("score", "x", c))
+    # four candidates, complete rankings: ties of up to four candidates at the seat boundary whose
+    # secondary score leaves several still-tied groups (single-round rules only, see run_case)
+    for c in fam.prof_list(fam.perm_family(4), 2, (1,), fam.cands(4)):
+        cs.append(("rank4s", "int", c))
     if tier == "thorough":
         # engineered tie family on four candidates: profiles with a tie in first-place or Borda scores
         c4 = fam.cands(4)
@@ -43,7 +47,7 @@ def build_cases(tier, seed):
                 cs.append(("rank4", "int", c))
     _CASES = cs
     meta = {
-        "family": "ranked: " + common.family_text(tier, extra4=False) + "; tied ballots Prof(Weak(3),2,{1,2}); score profiles; "
+        "family": "ranked: " + common.family_text(tier, extra4=False) + "; Prof(Perm(4),2,{1}) for the single-round rules; tied ballots Prof(Weak(3),2,{1,2}); score profiles; "
                   + ("engineered tie family: Prof(Rank(4),2,{1,2}) filtered to profiles with equal positive first-place or equal Borda scores; " if tier == "thorough" else "")
                   + "x every non-random rule configuration (Plurality, SNTV, Borda, TopTwo, CondoBorda, DominatingSets, STV/IRV/"
                   "SequentialRCV with fractional transfer, Alaska, Rating/Approval/Limited/Cumulative/BlocPlurality) x tiebreak in "
@@ -62,7 +66,7 @@ def _get(i):
 
 def case_json(i):
     kind, tag, c = _get(i)
-    return c01.case_json((("rank" if kind == "rank4" else kind), tag, c))
+    return c01.case_json((("rank" if kind in ("rank4", "rank4s") else kind), tag, c))
 
 
 def case_from_json(j):
@@ -165,12 +169,14 @@ def score_for_tb(tb, case):
 
 def run_case(i, tier):
     kind, tag, case = _get(i)
-    mkind = "rank" if kind == "rank4" else kind
+    mkind = "rank" if kind in ("rank4", "rank4s") else kind
     cs = case[0]
     cnt = collections.Counter()
     out = {"counters": cnt, "viols": []}
     for (label, vrule, kw, exp_m, spec) in c01.rule_menu(mkind, tag, case, tier):
         if label in RANDOM_RULES or kw.get("transfer") == "random":
+            continue
+        if kind == "rank4s" and label not in ("Plurality", "SNTV", "Borda", "TopTwo", "CondoBorda", "DominatingSets"):
             continue
         if mkind == "score" and False:
             continue
